@@ -10,7 +10,8 @@
   What is a parameter of a run (`Config`): the tools (arbitrary functions), the
   return-directly set, `MaxStep`, the `MessageModifier`, an optional custom checker.
   The chat model is a script: a list of replies, every reply given as the list of chunks
-  it is streamed in (`Generate` returns their concatenation).
+  it is streamed in (`Generate` returns their concatenation); the tool calls of a chunk are
+  deltas keyed by `Index`, assembled per index by `assemble` (`schema.concatToolCalls`).
 
   Core Lean only; compiled into the oracle.
 -/
@@ -18,10 +19,15 @@ namespace EinoV.C18
 
 /-! ## messages -/
 
+/-- `schema.ToolCall` as far as the agent looks at it. The same type serves for a whole tool
+    call and for one streamed *delta* of it: `index` is `ToolCall.Index` (`none` = nil), the key
+    under which `schema.ConcatMessages` merges the deltas of one call; a delta carries the
+    call's id / name when it has them ("" otherwise) and a piece of the arguments. -/
 structure ToolCall where
   id : String
   name : String
   args : String
+  index : Option Nat := none
   deriving DecidableEq, Repr, Inhabited
 
 inductive Role where
@@ -46,11 +52,54 @@ structure Chunk where
   extras : List String := []
   deriving DecidableEq, Repr, Inhabited
 
-/-- `schema.ConcatMessages` on assistant chunks whose tool calls arrive whole: contents are
-    concatenated, tool calls appended in order. -/
+/-! ## assembling a turn's tool calls from streamed deltas (`schema.concatToolCalls`)
+
+The tool calls of the chunks of one reply, flattened in arrival order, are a list of deltas.
+Deltas without `Index` are tool calls of their own; the deltas that carry `Index = i` — wherever
+they sit in the stream, contiguous or interleaved with the deltas of other calls — are merged
+into one tool call: id and name are the first non-empty ones, the arguments are concatenated
+in arrival order. The result lists the index-less calls first (arrival order), then one call per
+index, by ascending index. (Deltas of one index with two different non-empty ids / names make
+`ConcatMessages` fail; such streams are outside the modelled domain.) -/
+
+/-- the first non-empty string ("" when there is none) -/
+def firstNonEmpty : List String → String
+  | [] => ""
+  | s :: rest => if s = "" then firstNonEmpty rest else s
+
+/-- the deltas filed under key `k` (`some i` = `Index` i, `none` = no `Index`), in arrival order -/
+def deltasOf (k : Option Nat) (ds : List ToolCall) : List ToolCall :=
+  ds.filter (fun d => decide (d.index = k))
+
+/-- the tool call the deltas `g` of index `i` merge into -/
+def mergeDeltas (i : Nat) (g : List ToolCall) : ToolCall :=
+  { id := firstNonEmpty (g.map (·.id)), name := firstNonEmpty (g.map (·.name)),
+    args := String.join (g.map (·.args)), index := some i }
+
+/-- the assembled tool call of index `i`, if any delta carries that index -/
+def groupAt (ds : List ToolCall) (i : Nat) : Option ToolCall :=
+  match deltasOf (some i) ds with
+  | [] => none
+  | g => some (mergeDeltas i g)
+
+/-- one more than the largest index that occurs (0 when none does) -/
+def indexBound : List ToolCall → Nat
+  | [] => 0
+  | d :: ds =>
+    match d.index with
+    | some i => max (i + 1) (indexBound ds)
+    | none => indexBound ds
+
+/-- `schema.concatToolCalls`: index-less deltas first, then one merged call per index in
+    ascending index order -/
+def assemble (ds : List ToolCall) : List ToolCall :=
+  deltasOf none ds ++ (List.range (indexBound ds)).filterMap (groupAt ds)
+
+/-- `schema.ConcatMessages` on assistant chunks: contents are concatenated, the tool calls are
+    assembled per index from the deltas of all chunks. -/
 def concat (cs : List Chunk) : Msg :=
   { role := .assistant, content := String.join (cs.map (·.content)),
-    calls := cs.flatMap (·.calls), callId := "" }
+    calls := assemble (cs.flatMap (·.calls)), callId := "" }
 
 /-- One scripted reply of the chat model: the chunks `Stream` emits. -/
 structure Reply where
